@@ -146,6 +146,7 @@ func NewEncryptedISO(f afero.File, data1 []byte, clearRegions bool) (*EncryptedI
 		regionsHeaderSize: sizeBytes(binary.Size(hdr) + binary.Size(unencryptedRegions)),
 		privateFile:       f,
 		encryptedRegions:  encryptedRegions,
+		cip:               cip,
 		cbcDec:            cipher.NewCBCDecrypter(cip, iv[:]).(cbcMode),
 		iv:                iv[:],
 	}, nil
